@@ -13,6 +13,8 @@ import (
 	"fmt"
 
 	"github.com/pingcap/kvproto/pkg/keyspacepb"
+	"github.com/pingcap/tidb/pkg/store/mockstore/unistore"
+	"github.com/tikv/client-go/v2/util/codec"
 	pdgc "github.com/tikv/pd/client/clients/gc"
 	"github.com/tikv/pd/client/constants"
 	"math"
@@ -37,6 +39,10 @@ import (
 type M = map[string]interface{}
 
 const maxTsC = 2147483647
+
+// unistore mode: timestamps come from unistore's own PD (wall clock), because the store takes the minimum commit
+// timestamp of async-commit / 1PC transactions from it; tsBase shifts them into the compact range
+var tsBase int64
 const rpcBudget = 6000
 
 // compact exact image of a TSO timestamp: physical*1000 + logical (logical < 1000 is enforced by the virtual PD)
@@ -48,8 +54,8 @@ func cts(t uint64) int {
 		return 0
 	}
 	l := int(t & 0x3ffff)
-	p := int(t >> 18)
-	if l >= 1000 || p >= 2000000 {
+	p := int(t>>18) - int(tsBase)
+	if l >= 1000 || p >= 2000000 || p < 0 {
 		return -int(t % 1000000) // out of the exact range: never equal to a real compact ts, flagged by the specs
 	}
 	return p*1000 + l
@@ -184,7 +190,20 @@ func (p *vpd) LoadKeyspace(ctx context.Context, name string) (*keyspacepb.Keyspa
 }
 
 func (p *vpd) WithCallerComponent(caller.Component) pd.Client { return p }
-func (p *vpd) GetTS(context.Context) (int64, int64, error) {
+func (p *vpd) GetTS(ctx context.Context) (int64, int64, error) {
+	if useUni {
+		ph, l, err := p.Client.GetTS(ctx)
+		if err != nil {
+			return ph, l, err
+		}
+		p.w.clk.mu.Lock()
+		if tsBase == 0 {
+			tsBase = ph - 1000
+		}
+		p.w.clk.mu.Unlock()
+		p.w.rec.emit(M{"ev": "tso", "client": p.name, "ts": cts(uint64(ph)<<18 | uint64(l))})
+		return ph, l, nil
+	}
 	ph, l := p.w.clk.next()
 	p.w.rec.emit(M{"ev": "tso", "client": p.name, "ts": int(ph)*1000 + int(l)})
 	return ph, l, nil
@@ -201,11 +220,17 @@ func (p *vpd) GetLocalTS(ctx context.Context, _ string) (int64, int64, error) { 
 func (p *vpd) GetLocalTSAsync(ctx context.Context, _ string) tso.TSFuture     { return p.GetTSAsync(ctx) }
 
 // ---------------------------------------------------------------------------------------------
+// useUni: the store is tidb's unistore (implements async commit, 1PC and Flush) instead of mocktikv
+var useUni bool
+
 type World struct {
 	rec     *Recorder
 	clk     *vclock
 	mock    *testutils.MockClient
 	cluster *testutils.MockCluster
+	uni     *unistore.Cluster
+	base    tikv.Client   // what the clients' stores talk to (below their gates)
+	dbg     *tikv.KVStore // unistore mode: an ungated store used to read the MVCC projection
 	pdc     pd.Client
 	nkeys   int
 	exec    sync.Mutex // serialises RPC execution + its log line + projection
@@ -240,18 +265,45 @@ type Client struct {
 	w     *World
 }
 
-func newWorld(outPath string, seed int64, nkeys int, splits []int) *World {
-	mock, cluster, pdc, err := testutils.NewMockTiKV("", nil)
-	if err != nil {
-		panic(err)
-	}
+// backend creates a fresh store with the given region borders
+func (w *World) backend(splits []int) {
 	var sk [][]byte
 	for _, s := range splits {
 		sk = append(sk, physOf(s))
 	}
+	if w.dbg != nil {
+		go w.dbg.Close()
+		w.dbg = nil
+	}
+	if useUni {
+		client, pdc, cluster, err := unistore.New("", nil, constants.NullKeyspaceID, nil)
+		if err != nil {
+			panic(err)
+		}
+		if len(sk) > 0 {
+			unistore.BootstrapWithMultiRegions(cluster, sk...)
+		} else {
+			unistore.BootstrapWithSingleStore(cluster)
+		}
+		if old, ok := w.base.(*uniWrap); ok {
+			go old.RPCClient.Close() // the previous scenario's server
+		}
+		w.uni, w.pdc, w.base = cluster, pdc, &uniWrap{RPCClient: client, log: func(M) {}, noClose: true}
+		w.mock, w.cluster = nil, nil
+		return
+	}
+	mock, cluster, pdc, err := testutils.NewMockTiKV("", nil)
+	if err != nil {
+		panic(err)
+	}
 	testutils.BootstrapWithMultiRegions(cluster, sk...)
-	w := &World{rec: newRecorder(outPath), clk: &vclock{physical: 1000}, mock: mock, cluster: cluster, pdc: pdc, nkeys: nkeys,
+	w.mock, w.cluster, w.pdc, w.base = mock, cluster, pdc, mock
+}
+
+func newWorld(outPath string, seed int64, nkeys int, splits []int) *World {
+	w := &World{rec: newRecorder(outPath), clk: &vclock{physical: 1000}, nkeys: nkeys,
 		clients: map[string]*Client{}, rng: rand.New(rand.NewSource(seed)), splitAt: map[int]bool{}}
+	w.backend(splits)
 	return w
 }
 
@@ -262,16 +314,7 @@ func (w *World) reset(info M, splits []int) {
 		c.store.Close()
 	}
 	w.clients = map[string]*Client{}
-	mock, cluster, pdc, err := testutils.NewMockTiKV("", nil)
-	if err != nil {
-		panic(err)
-	}
-	var sk [][]byte
-	for _, s := range splits {
-		sk = append(sk, physOf(s))
-	}
-	testutils.BootstrapWithMultiRegions(cluster, sk...)
-	w.mock, w.cluster, w.pdc = mock, cluster, pdc
+	w.backend(splits)
 	w.splitAt = map[int]bool{}
 	w.prio = nil
 	if w.rng.Intn(2) == 0 {
@@ -318,7 +361,7 @@ func (w *World) client(name string) *Client {
 		// the tenant of the neighbouring keyspace is not part of the recorded history: no gate
 		id := w.keyspaceOf(name)
 		meta := keyspacepb.KeyspaceMeta{Keyspace: &keyspacepb.KeyspaceMeta_Id{Id: id}, Name: fmt.Sprintf("ks%d", id), State: keyspacepb.KeyspaceState_ENABLED}
-		store, err = tikv.NewTestKeyspaceTiKVStore(w.mock, &vpd{Client: w.pdc, w: w, name: name, ks: &meta}, nil, nil, 0, meta)
+		store, err = tikv.NewTestKeyspaceTiKVStore(w.base, &vpd{Client: w.pdc, w: w, name: name, ks: &meta}, nil, nil, 0, meta)
 		if err != nil {
 			panic(err)
 		}
@@ -328,9 +371,9 @@ func (w *World) client(name string) *Client {
 	}
 	if id := w.keyspaceOf(name); id != 0 {
 		meta := keyspacepb.KeyspaceMeta{Keyspace: &keyspacepb.KeyspaceMeta_Id{Id: id}, Name: fmt.Sprintf("ks%d", id), State: keyspacepb.KeyspaceState_ENABLED}
-		store, err = tikv.NewTestKeyspaceTiKVStore(w.mock, &vpd{Client: w.pdc, w: w, name: name, ks: &meta}, func(cl tikv.Client) tikv.Client { g.Client = cl; return g }, nil, 0, meta)
+		store, err = tikv.NewTestKeyspaceTiKVStore(w.base, &vpd{Client: w.pdc, w: w, name: name, ks: &meta}, func(cl tikv.Client) tikv.Client { g.Client = cl; return g }, nil, 0, meta)
 	} else {
-		store, err = tikv.NewTestTiKVStore(w.mock, &vpd{Client: w.pdc, w: w, name: name}, func(cl tikv.Client) tikv.Client { g.Client = cl; return g }, nil, 0)
+		store, err = tikv.NewTestTiKVStore(w.base, &vpd{Client: w.pdc, w: w, name: name}, func(cl tikv.Client) tikv.Client { g.Client = cl; return g }, nil, 0)
 	}
 	if err != nil {
 		panic(err)
@@ -342,13 +385,18 @@ func (w *World) client(name string) *Client {
 
 // projection of the store: lock and write records of every key of the universe
 func (w *World) proj() M {
-	dbg := w.mock.MvccStore.(interface {
-		MvccGetByKey(key []byte) *kvrpcpb.MvccInfo
-	})
+	var get func(key []byte) *kvrpcpb.MvccInfo
+	if useUni {
+		get = w.uniMvcc
+	} else {
+		get = w.mock.MvccStore.(interface {
+			MvccGetByKey(key []byte) *kvrpcpb.MvccInfo
+		}).MvccGetByKey
+	}
 	locks := make([]M, w.nkeys)
 	writes := make([][]M, w.nkeys)
 	for i := 1; i <= w.nkeys; i++ {
-		info := dbg.MvccGetByKey(physOf(i))
+		info := get(physOf(i))
 		locks[i-1] = M{"ts": 0, "primary": 0, "kind": "None"}
 		writes[i-1] = []M{}
 		if info == nil {
@@ -370,6 +418,35 @@ func logicalOf(k []byte) []byte {
 		return k[4:]
 	}
 	return k
+}
+
+// uniMvcc reads the MVCC records of one key from unistore with the debug command, through an ungated store
+func (w *World) uniMvcc(key []byte) *kvrpcpb.MvccInfo {
+	if w.dbg == nil {
+		st, err := tikv.NewTestTiKVStore(w.base, &vpd{Client: w.pdc, w: w, name: "dbg"}, nil, nil, 0)
+		if err != nil {
+			panic(err)
+		}
+		w.dbg = st
+	}
+	for try := 0; try < 20; try++ {
+		bo := tikv.NewBackofferWithVars(context.Background(), 5000, nil)
+		loc, err := w.dbg.GetRegionCache().LocateKey(bo, key)
+		if err != nil {
+			continue
+		}
+		req := tikvrpc.NewRequest(tikvrpc.CmdMvccGetByKey, &kvrpcpb.MvccGetByKeyRequest{Key: key})
+		resp, err := w.dbg.SendReq(bo, req, loc.Region, time.Second)
+		if err != nil || resp.Resp == nil {
+			continue
+		}
+		r := resp.Resp.(*kvrpcpb.MvccGetByKeyResponse)
+		if r.RegionError != nil {
+			continue
+		}
+		return r.Info
+	}
+	panic("verif: cannot read the MVCC projection from unistore")
 }
 
 func lockKind(op kvrpcpb.Op) string {
@@ -406,12 +483,21 @@ func (w *World) split(atKey int) {
 		return
 	}
 	w.splitAt[atKey] = true
-	region, _, _, _ := w.cluster.GetRegionByKey(physOf(atKey))
-	if region == nil {
-		return
+	if useUni {
+		region, _, _, _ := w.uni.GetRegionByKey(codec.EncodeBytes(nil, physOf(atKey)))
+		if region == nil {
+			return
+		}
+		newID, peerID := w.uni.AllocID(), w.uni.AllocID()
+		w.uni.Split(region.Id, newID, physOf(atKey), []uint64{peerID}, peerID)
+	} else {
+		region, _, _, _ := w.cluster.GetRegionByKey(physOf(atKey))
+		if region == nil {
+			return
+		}
+		newID, peerID := w.cluster.AllocID(), w.cluster.AllocID()
+		w.cluster.Split(region.Id, newID, physOf(atKey), []uint64{peerID}, peerID)
 	}
-	newID, peerID := w.cluster.AllocID(), w.cluster.AllocID()
-	w.cluster.Split(region.Id, newID, physOf(atKey), []uint64{peerID}, peerID)
 	w.rec.emit(M{"ev": "split", "at": atKey})
 }
 
